@@ -37,7 +37,7 @@ EXPLANATION = (
     "the same call returns with cache=False (rows and stats) and must not raise."
 )
 BOUNDS = [
-    "histories of 2 runs (quick) / 3 runs (thorough) over 3 row tokens; per run one of 6 (rows, batch_size) layouts; threshold in {0,1,2} against per-token confidence in {0,1,2}; at most one killed run, crash point k in 0..80 write() calls (covers absent/empty/every chunk prefix/complete)",
+    "histories of 2 runs (quick) / 3 runs (thorough) over 3 row tokens; per run one of 6 (rows, batch_size) layouts; threshold in {0,1,2} against per-token confidence in {0,1,2}; statistics requested or not per run; at most one killed run, crash point k in 0..80 write() calls (covers absent/empty/every chunk prefix/complete)",
 ]
 STUBS = [
     "Balancer.__run_pipeline -> pure function of (row token, threshold): solved = confidence(token) >= threshold, stats = {reaction_cnt, confident_cnt}",
@@ -187,7 +187,7 @@ def _key(batch):
     return tuple(batch)
 
 
-def h_history(l0: int, l1: int, l2: int, t0: int, t1: int, t2: int, ca: int, cb: int, cc: int, kill_run: int, k: int) -> bool:
+def h_history(l0: int, l1: int, l2: int, t0: int, t1: int, t2: int, ca: int, cb: int, cc: int, kill_run: int, k: int, s0: bool, s1: bool, s2: bool) -> bool:
     """
     pre: 0 <= l0 < 6 and 0 <= l1 < 6 and 0 <= l2 < 6
     pre: 0 <= t0 <= 2 and 0 <= t1 <= 2 and 0 <= t2 <= 2
@@ -200,6 +200,7 @@ def h_history(l0: int, l1: int, l2: int, t0: int, t1: int, t2: int, ca: int, cb:
     fixed = PART.get("fix") or {}
     ls = [fixed.get("l0", l0), fixed.get("l1", l1), fixed.get("l2", l2)][:nruns]
     ts = [fixed.get("t0", t0), fixed.get("t1", t1), fixed.get("t2", t2)][:nruns]
+    want_stats = [True if fixed.get("s0", s0) else False, True if fixed.get("s1", s1) else False, True if fixed.get("s2", s2) else False][:nruns]
     if "kill_run" in fixed:
         kill_run = fixed["kill_run"]
     CONF.clear()
@@ -218,7 +219,7 @@ def h_history(l0: int, l1: int, l2: int, t0: int, t1: int, t2: int, ca: int, cb:
         data = [{"reaction": t} for t in rows_tok]
         # expected result of this run
         want_rows = []
-        want_stats = {}
+        want_stats_d = {}
         raises_known = False
         for batch in _batches(rows_tok, bs):
             kb = _key(batch)
@@ -234,9 +235,9 @@ def h_history(l0: int, l1: int, l2: int, t0: int, t1: int, t2: int, ca: int, cb:
                     rr, st = ent[0], ent[1]
             want_rows.extend(rr)
             for kk, v in st.items():
-                want_stats[kk] = want_stats.get(kk, 0) + v
+                want_stats_d[kk] = want_stats_d.get(kk, 0) + v
         FS.reset_counter(k if kill_run == i else -1)
-        stats = {}
+        stats = {} if want_stats[i] else None
         killed = False
         raised = False
         try:
@@ -277,7 +278,7 @@ def h_history(l0: int, l1: int, l2: int, t0: int, t1: int, t2: int, ca: int, cb:
         want = [{kk: v for kk, v in r.items() if kk in b.columns} for r in want_rows]
         if got != want:
             return False
-        if stats != want_stats:
+        if stats is not None and stats != want_stats_d:
             return False
     return True
 
@@ -299,7 +300,7 @@ def plan(tier):
     for l0 in range(nl):
         P.append(Part(H + "h_history", {"runs": 2, "fix": {"l0": l0, "kill_run": -1}}, "history[2 runs|l0=%d]" % l0, group="history", timeout=1800, path_timeout=120))
     # histories with a killed run: crash point symbolic (every write() of the entry), thresholds/confidences fixed
-    calm = {"t0": 0, "t1": 0, "t2": 0, "ca": 1, "cb": 1, "cc": 1}
+    calm = {"t0": 0, "t1": 0, "t2": 0, "ca": 1, "cb": 1, "cc": 1, "s0": True, "s1": True, "s2": True}
     pairs = [(a, b) for a in range(nl) for b in range(nl)]
     if tier != "thorough":
         pairs = [(0, 0), (0, 1), (1, 2), (3, 0), (4, 0), (5, 3), (1, 5), (2, 4)]
